@@ -5,6 +5,7 @@ per operation.  Imports only core-Lean model files, so it links as a lean_exe.
 import Driver.PduOps
 import Driver.ScalarOps
 import Driver.Gsm7Ops
+import Driver.CombinerOps
 
 open Driver
 
@@ -20,7 +21,10 @@ def step (line : String) : String :=
       | none =>
         match gsmOp op args with
         | some r => r
-        | none => "bad-op"
+        | none =>
+          match combinerOp op args with
+          | some r => r
+          | none => "bad-op"
 
 partial def loop (h : IO.FS.Stream) (out : IO.FS.Stream) : IO Unit := do
   let line ← h.getLine
